@@ -9,19 +9,21 @@ Local Open Scope Z_scope.
 
 (* 0: constructor (entry, no object parameter): Impl x; x.halfedge_ = Halfedges(data); x.vertPos_ = ...
    1: Impl method (this): halfedge_.MakeUnique(); loop { write start_, propVert_ }
-   2: public method (entry, one borrowed Impl): p = make_shared<Impl>( *old ); p->method1(); p->vertPos_ = ...
+   2: operation (entry, one borrowed Impl): Impl p; p = *old (copy ASSIGNMENT: shares); p.method1(); p.vertPos_ = ...
+   4: public method (entry): p = make_shared<Impl>( *old ) (copy CONSTRUCTOR: deep copy); write without MakeUnique is fine
    3: Impl::Transform-like const method (entry): Impl r; r.halfedge_ = this->halfedge_; if (mirror) { r.MakeUnique; write } *)
 Definition good_tbl : list fn :=
   [ mkFn 0 true  [ENewFresh; EAssignFresh 0; EWritePlain 0];
     mkFn 1 false [EMakeUnique 0; EBlock [EWrite 0 0; EWrite 0 2]];
-    mkFn 1 true  [ENewCopy 0; ECall 1 [1]; EWritePlain 1];
-    mkFn 1 true  [ENewFresh; EAssignShare 1 0; EBlock [EMakeUnique 1; EWrite 1 0; EWrite 1 1; EWrite 1 2]] ]%nat.
+    mkFn 1 true  [ENewFresh; EAssignShare 1 0; ECall 1 [1]; EWritePlain 1];
+    mkFn 1 true  [ENewFresh; EAssignShare 1 0; EBlock [EMakeUnique 1; EWrite 1 0; EWrite 1 1; EWrite 1 2]];
+    mkFn 1 true  [ENewCopy 0; EWrite 1 1] ]%nat.
 
 (* same, but method 1 lost its MakeUnique *)
 Definition bad_tbl : list fn :=
   [ mkFn 0 true  [ENewFresh; EAssignFresh 0; EWritePlain 0];
     mkFn 1 false [EBlock [EWrite 0 0; EWrite 0 2]];
-    mkFn 1 true  [ENewCopy 0; ECall 1 [1]; EWritePlain 1] ]%nat.
+    mkFn 1 true  [ENewFresh; EAssignShare 1 0; ECall 1 [1]; EWritePlain 1] ]%nat.
 
 Definition hist1 : list hop :=
   [ HRun 0 [] [[1;2;3]; [10;20]];              (* a = new object            -> handle 0 *)
@@ -30,6 +32,7 @@ Definition hist1 : list hop :=
     HLazy 0 (-5);                                (* d = a.Mirror/Translate    -> handle 3 *)
     HForce 3;
     HRun 3 [2%nat] [[0]; [4]; [5]; [6]];         (* e = transform-like of c   -> handle 4 *)
+    HRun 4 [0%nat] [[42]];                       (* f = deep copy of a, written in place -> handle 5 *)
     HDrop 1 ].
 
 Lemma good_tbl_ok : discipline_ok good_tbl = true.
@@ -43,13 +46,14 @@ Lemma hist1_runs :
     obs_handle hs 2 = Some ([[7]; [1;2;3]; [8]], [30]) /\
     obs_handle hs 3 = Some ([[3;2;1]; [3;2;1]; [3;2;1]], [5;15]) /\
     obs_handle hs 4 = Some ([[4]; [5]; [6]], []) /\
+    obs_handle hs 5 = Some ([[1;2;3]; [42]; [1;2;3]], [10;20]) /\
     obs_handle hs 1 = None.
 Proof. eexists. vm_compute. repeat split. Qed.
 
 Lemma bad_tbl_rejected : discipline_ok bad_tbl = false.
 Proof. vm_compute. reflexivity. Qed.
 
-(* without the discipline: b = a.method() overwrites a's halfedge storage *)
+(* without the discipline: b shares a's buffers by assignment; b.method() overwrites a's halfedge storage *)
 Lemma bad_tbl_changes_old_object :
   exists ops hs op hs' h v,
     hrun bad_tbl h0 ops = Some hs /\ hstep bad_tbl hs op = Some hs' /\
